@@ -118,11 +118,16 @@ DYADS = [
 ]
 
 
-def judge(part, name, key_or_prog, args, want, is_prog=False):
+def judge(part, name, key_or_prog, args, want, is_prog=False, as_sympy=False):
     if want is None:
         part.skip("outside the definition's domain")
         return
     part.count()
+    shown = list(args)
+    if as_sympy:   # the same integers as the program's own literals put them on the stack (sympy.Integer instead of int)
+        import sympy
+
+        args = [sympy.Integer(a) for a in args]
     if is_prog:
         r = sandbox.run_program(key_or_prog, stack=list(args), timeout=30)
         stack, exc = r.stack, r.exc
@@ -145,13 +150,13 @@ def judge(part, name, key_or_prog, args, want, is_prog=False):
             ok = True
     part.outcome((key_or_prog, str(want)[:12]))
     if not ok:
-        n = args[0]
-        cls = ("0" if n == 0 else "1" if n == 1 else "prime" if is_prime(n) and n < 10 ** 7 else
-               "prime-square" if math.isqrt(n) ** 2 == n and is_prime(math.isqrt(n)) else
+        n = shown[0]
+        cls = ("0" if n == 0 else "1" if n == 1 else "prime" if n < 10 ** 7 and is_prime(n) else
+               "prime-square" if n < 10 ** 14 and math.isqrt(n) ** 2 == n and is_prime(math.isqrt(n)) else
                "power-of-two" if n & (n - 1) == 0 else "other")
-        part.violation("definition", {"law": name, "element": key_or_prog, "args": list(args)},
+        part.violation("definition", {"law": name, "element": key_or_prog, "args": shown, "given_as": "sympy.Integer" if as_sympy else "int"},
                        "%s [%s]: differs from the definition" % (name, key_or_prog),
-                       {"element": key_or_prog, "n_class": cls, "what": obs if isinstance(obs, str) and obs.startswith(("raises", "forcing", "empty")) else "wrong value"},
+                       {"element": key_or_prog, "n_class": cls, "given_as": "sympy" if as_sympy else "int", "what": obs if isinstance(obs, str) and obs.startswith(("raises", "forcing", "empty")) else "wrong value"},
                        str(want)[:200], str(obs)[:200], size=len(str(args)))
 
 
@@ -172,6 +177,46 @@ def _dyad_shard(pairs):
         for name, key, f in DYADS:
             judge(part, name, key, [a, b], f(a, b))
         part.nontriv()
+    return part.data()
+
+
+def _sympy_shard(ns):
+    """the same definitions with the arguments given the way a program's literals give them: as sympy Integers"""
+    part = explore.Partial()
+    for n in ns:
+        for name, key, dom, f in MONADS:
+            judge(part, name, key, [n], f(n) if dom(n) else None, as_sympy=True)
+        for name, prog, f in PROGRAMS:
+            judge(part, name, prog, [n], f(n), is_prog=True, as_sympy=True)
+        if n <= 40:
+            for m in range(0, 41):
+                for name, key, f in DYADS:
+                    judge(part, name, key, [n, m], f(n, m), as_sympy=True)
+        part.nontriv()
+    return part.data()
+
+
+# composites that fool Miller-Rabin with few fixed bases (psi_k = least strong pseudoprime to the first k primes, and friends), each
+# with a factor that proves it composite; and Mersenne primes (known primes far beyond trial division)
+PSEUDOPRIMES = [(2047, 23), (1373653, 829), (25326001, 2251), (3215031751, 151), (2152302898747, 6763), (3474749660383, 1303),
+                (341550071728321, 10670053), (3825123056546413051, 149491), (118670087467, 172243), (4759123141, 48781),
+                (1122004669633, 611557), (318665857834031151167461, 399165290221), (3317044064679887385961981, 1287836182261),
+                (9080191, 2131), (4681, 31), (15841, 7), (52633, 7), (3215031751 * 3, 3)]
+MERSENNE_PRIMES = [2 ** 31 - 1, 2 ** 61 - 1, 2 ** 89 - 1, 2 ** 107 - 1, 2 ** 127 - 1]
+
+
+def _pseudo_shard(_):
+    part = explore.Partial()
+    for n, f in PSEUDOPRIMES:
+        assert 1 < f < n and n % f == 0, (n, f)
+        for sy in (False, True):
+            judge(part, "primality", "æ", [n], 0, as_sympy=sy)
+        part.nontriv()
+    for n in MERSENNE_PRIMES:
+        for sy in (False, True):
+            judge(part, "primality", "æ", [n], 1, as_sympy=sy)
+        part.nontriv()
+    part.section("pseudoprime_family", composites=len(PSEUDOPRIMES), mersenne_primes=len(MERSENNE_PRIMES))
     return part.data()
 
 
@@ -216,9 +261,11 @@ def run(tier, seed):
     else:
         fam |= {10 ** 9 + d for d in range(0, 12)}
     explore.pmap(_big_shard, explore.chunks(sorted(fam), 64), rep, seed)
+    explore.pmap(_sympy_shard, explore.chunks(list(range(0, 2001 if quick else 20001)), 64), rep, seed)
+    explore.pmap(_pseudo_shard, [0], rep, seed)
     rep.rule = ("all n in 0..%d against %d monadic definitions and %d inverse-pair programs; all pairs (a,b) <= %d for gcd, lcm, "
                 "binomial, divisibility, modulo; a structured large family (%d numbers: Carmichael numbers < 10^6, p^2, p*q, 2^k, "
-                "2^k+-1, numbers around 10^9/10^12). Naive trial-division definitions. distinct_nontrivial = distinct n + pairs."
+                "2^k+-1, numbers around 10^9/10^12); the same definitions with the arguments given as sympy Integers (as program literals are) for n <= 2000 [20000] and pairs <= 40; 18 strong pseudoprimes / psi_k values (each with a factor proving it composite) and 5 Mersenne primes for primality. Naive trial-division definitions. distinct_nontrivial = distinct n + pairs."
                 % (N, len(MONADS), len(PROGRAMS), P, len(fam)))
     rep.extra["allow_skips"] = True
     rep.extra["elements"] = [m[1] for m in MONADS] + [d[1] for d in DYADS] + [p[1] for p in PROGRAMS]
